@@ -60,7 +60,68 @@ def rounding_class(node):
   return (cls, cur)
 
 
+def ignored_notes_cannot_raise(ctx, rule):
+  """Location-independent: a note whose pitch lies outside [min_pitch, max_pitch] is ignored - it may not make the conversion
+  fail.  Every raise of sequence_to_pianoroll whose guard reads a note attribute is followed back to the notes it is computed
+  from: inside the per-note loop it must be unreachable for pitch == min_pitch - 1 and pitch == max_pitch + 1 (three-valued
+  evaluation of the path conditions, early `continue` included); outside, an aggregate over sequence.notes that feeds the guard
+  must filter on the pitch range."""
+  from sa import scenario, pitfalls
+  fi = ctx.func(SL + ':sequence_to_pianoroll')
+  fn = fi.node
+  nested = [d for d in ast.walk(fn) if isinstance(d, (ast.FunctionDef, ast.Lambda)) and d is not fn]
+  NOTE_ATTRS = ('velocity', 'pitch', 'start_time', 'end_time')
+  out_of_range = ([('%s.pitch', 'min_pitch - 1')], [('%s.pitch', 'max_pitch + 1')])
+  n = 0
+  for r in ast.walk(fn):
+    if not isinstance(r, ast.Raise) or any(any(r is x for x in ast.walk(d)) for d in nested):
+      continue
+    conds = [(U.expand_locals(fn, t, at=r), p) for t, p in U.path_conditions(fn, r)]
+    loops = [lp for lp in U.enclosing_loops(fn, r) if isinstance(lp, ast.For) and isinstance(lp.target, ast.Name) and '.notes' in norm_text(lp.iter)]
+    cons = 'a note outside the pitch range cannot make the conversion raise (%s)' % norm_text(r)[:60]
+    if loops:
+      v = loops[0].target.id
+      if not any(isinstance(x, ast.Attribute) and x.attr in NOTE_ATTRS and norm_text(x.value) == v for t, _p in conds for x in ast.walk(t)):
+        continue
+      n += 1
+      res = [scenario.tv_all(conds, scenario.subst_of([(a % v, b) for a, b in sc])) for sc in out_of_range]
+      if all(x is False for x in res):
+        ctx.ob(rule, fi, r, True, 'unreachable for pitch == min_pitch - 1 and for pitch == max_pitch + 1: the range test comes first', construct=cons)
+      elif any(x is True for x in res):
+        ctx.ob(rule, fi, r, False, 'a note with pitch %s reaches %s: an ignored note makes the conversion fail' % (
+            'min_pitch - 1' if res[0] is True else 'max_pitch + 1', norm_text(r)[:80]), construct=cons, definite=True)
+      else:
+        why = 'cannot classify: whether an out-of-range note reaches %s is not decided by its path conditions' % norm_text(r)[:60]
+        ctx.ob(rule, fi, r, False, why, construct=cons, unknown=why)
+      continue
+    # outside the per-note loop: aggregates over the notes in the guard
+    for t, _p in conds:
+      for comp in ast.walk(t):
+        if not isinstance(comp, (ast.ListComp, ast.GeneratorExp, ast.SetComp)):
+          continue
+        g = comp.generators[0]
+        if not (isinstance(g.target, ast.Name) and '.notes' in norm_text(g.iter)):
+          continue
+        v = g.target.id
+        if not any(isinstance(x, ast.Attribute) and x.attr in NOTE_ATTRS and norm_text(x.value) == v for x in ast.walk(comp.elt)):
+          continue
+        n += 1
+        ifs = [(f, True) for f in g.ifs]
+        res = [scenario.tv_all(ifs, scenario.subst_of([(a % v, b) for a, b in sc])) if ifs else True for sc in out_of_range]
+        if all(x is False for x in res):
+          ctx.ob(rule, fi, r, True, 'the aggregate %s leaves out-of-range notes out' % norm_text(comp)[:60], construct=cons)
+        elif any(x is True for x in res):
+          ctx.ob(rule, fi, r, False, '%s is decided by %s, which is taken over every note of the sequence, also those whose pitch is outside [min_pitch, max_pitch]: '
+                 'a note that must be ignored makes the whole conversion raise' % (norm_text(r)[:70], norm_text(comp)[:80]), construct=cons, definite=True)
+        else:
+          why = 'cannot classify: the filter of %s cannot be evaluated for an out-of-range pitch' % norm_text(comp)[:60]
+          ctx.ob(rule, fi, r, False, why, construct=cons, unknown=why)
+  if n == 0:
+    ctx.ob(rule, fi, fn, True, 'no raise depends on a note attribute', construct='no raise of sequence_to_pianoroll depends on a note')
+
+
 def run(ctx):
+  ignored_notes_cannot_raise(ctx, 'SKIP/ignored-notes-cannot-raise')
   encoder(ctx)
   decoder(ctx)
 
